@@ -31,6 +31,14 @@ class Plain:
         return self.label
 
 
+class Falsy:
+    """Legal components may be falsy (empty containers, zero-like values):
+    the library must test presence, never truth."""
+
+    def __bool__(self):
+        return False
+
+
 class A(Plain):
     pass
 
@@ -39,7 +47,7 @@ class B(A):
     pass
 
 
-class X(Plain):
+class X(Falsy, Plain):
     pass
 
 
@@ -59,12 +67,12 @@ class H(Plain):
         self.log.append((self.label, 'ping', token, None))
 
 
-class HB(H):
+class HB(Falsy, H):
     pass
 
 
 @desper.event_handler('ping')
-class P(Plain):
+class P(Falsy, Plain):
     """Listens to the probe event only: no lifecycle callbacks."""
 
     def ping(self, token):
